@@ -378,6 +378,53 @@ def keygen_history(ctx, kind, N):
     ctx.count("histories")
 
 
+def requested_names(ctx):
+    """other spellings of curve names and sizes a caller may try (SEC 2 / X9.62 / NIST names, sizes as str): refused, or a key of exactly what
+    the name means - through every generating entry point"""
+    j = J.load()
+    from ..keystrata import numbers_of_native
+    native = {"secp256r1": "secp256r1", "prime256v1": "secp256r1", "P-256": "secp256r1", "secp384r1": "secp384r1", "P-384": "secp384r1", "secp521r1": "secp521r1",
+              "P-521": "secp521r1", "secp256k1": "secp256k1", "P-256K": "secp256k1", "nistp256": "secp256r1", "nistp384": "secp384r1", "nistp521": "secp521r1",
+              "p-256": "secp256r1", "P256": "secp256r1", "P-512": None, "brainpoolP256r1": None, "secp192r1": None}
+    for name, want in native.items():
+        gens = [("ECKey.generate_key", lambda: j.ECKey.generate_key(name)), ("JWKRegistry.generate_key", lambda: j.JWKRegistry.generate_key("EC", name)),
+                ("KeySet.generate_key_set", lambda: j.KeySet.generate_key_set("EC", name, count=2).keys[1])]
+        for gname, f in gens:
+            ctx.ev()
+            o = call(f)
+            ctx.count("requested_name_cases")
+            ctx.nontrivial(("requested-name", name, gname))
+            ctx.cell("keygen-name", name, "refused" if not o.ok else "generated")
+            if not o.ok:
+                continue
+            n = numbers_of_native(o.value.raw_value)
+            if want is None or n.get("crv") != want:
+                ctx.violation("wrong-curve:generated-key", f"{gname}({name!r}) generated a key on {n.get('crv')}" + (f", the name means {want}" if want else ", a curve the name does not mean"),
+                              {"requested": name, "via": gname})
+            d = call(o.value.as_dict, private=False)
+            jose = {"secp256r1": "P-256", "secp384r1": "P-384", "secp521r1": "P-521", "secp256k1": "secp256k1"}.get(n.get("crv"))
+            if d.ok and d.value.get("crv") != jose:
+                ctx.violation("wrong-curve:exported-name", f"{gname}({name!r}): key on {n.get('crv')} exported with crv {d.value.get('crv')!r}", {"requested": name, "via": gname})
+    for name, want in {"Ed25519": "ed25519", "Ed448": "ed448", "X25519": "x25519", "X448": "x448", "ed25519": "ed25519", "x25519": "x25519", "Curve25519": None, "Ed25519ph": None}.items():
+        ctx.ev()
+        o = call(j.OKPKey.generate_key, name)
+        ctx.count("requested_name_cases")
+        if o.ok:
+            n = numbers_of_native(o.value.raw_value)
+            if want is None or n["t"].lower() != want:
+                ctx.violation("wrong-curve:generated-key", f"OKPKey.generate_key({name!r}) generated a {n['t']} key", {"requested": name})
+    for size, ok_bits in ((128, 128), (256, 256), (8, 8), (512, 512), (129, None), (7, None), (0, None), (-8, None)):
+        ctx.ev()
+        o = call(j.OctKey.generate_key, size)
+        ctx.count("requested_name_cases")
+        if o.ok:
+            got = len(numbers_of_native(o.value.raw_value)["k"]) * 8
+            if ok_bits is None:
+                ctx.open(f"oct-key-of-odd-size-{size}-generated")
+            elif got != ok_bits:
+                ctx.violation("wrong-size:generated-oct", f"OctKey.generate_key({size}) generated {got} bits", {"requested": size})
+
+
 def forked_processes(ctx, mon):
     """processes created by fork() after the parent has already encrypted: their IV / CEK / epk / salt values must differ too"""
     import os
@@ -489,6 +536,8 @@ def run_shard(ctx):
             reencrypt_history(mon, 40 if ctx.tier == "quick" else 400)
         if ctx.shard % 4 == 2:
             stale_header_history(mon, 40 if ctx.tier == "quick" else 400)
+        if ctx.shard == 3:
+            requested_names(ctx)
         cs = configs(ctx.tier)
         for idx, c in enumerate(cs):
             if idx % ctx.nshards != ctx.shard:
